@@ -508,6 +508,11 @@ class Interp:
             exc = st.exc.func if isinstance(st.exc, ast.Call) else st.exc
             from .frontend import dotted as _dotted
             nm_ = (_dotted(exc) or "Exception").split(".")[-1] if exc is not None else "Exception"
+            handling = self.__dict__.setdefault("_handling", [])
+            if exc is None and handling:
+                nm_ = handling[-1]            # a bare 'raise' inside a handler re-raises what is being handled
+            elif isinstance(exc, ast.Name) and isinstance(env.get(exc.id), Sym) and env[exc.id].tag.startswith("exc:"):
+                nm_ = env[exc.id].tag[4:]     # 'raise e' with the handler's own name
             self.throw(nm_ + (": " + norm(st.exc)[:40] if st.exc is not None else ""), st)
         elif isinstance(st, ast.Assert):
             v = self.ev(st.test, env, depth)
@@ -538,7 +543,12 @@ class Interp:
                     r.effect.kind = "caught"
                 if handler.name:
                     env[handler.name] = Sym("exc:" + r.name)
-                self.block(handler.body, env, depth)
+                handling = self.__dict__.setdefault("_handling", [])
+                handling.append(r.name)
+                try:
+                    self.block(handler.body, env, depth)
+                finally:
+                    handling.pop()
             else:
                 self.block(st.orelse, env, depth)
             self.block(st.finalbody, env, depth)
@@ -587,6 +597,10 @@ class Interp:
                 base[self._hashable(key)] = val
             elif isinstance(base, list) and isinstance(key, int) and not isinstance(key, bool) and -len(base) <= key < len(base):
                 base[key] = val
+            elif isinstance(base, list) and isinstance(key, int) and not isinstance(key, bool) and self.strict_index \
+                    and all(x is not UNKNOWN for x in base):
+                # a store beyond the end of a list the model holds completely (lst[i] = lst.pop() with i the last slot: the pop runs first)
+                self.throw("IndexError: list assignment index out of range", node)
             self.trace.append(Effect("store", (path or "?") + "[]", (key, val), node=node, fn=self.fn_stack[-1], recv=base))
 
     # ------------------------------------------------------------------ expressions
@@ -637,6 +651,8 @@ class Interp:
             base = self.ev(e.value, env, depth)
             if e.attr in ("__getitem__", "__contains__") and isinstance(base, (dict, list, set)):
                 return BoundOp(e.attr, base)
+            if isinstance(base, Obj) and e.attr == "__dict__":
+                return base.fields          # the instance dictionary itself: updates through it are updates of the object
             if isinstance(base, Obj):
                 if e.attr not in base.fields and isinstance(e.ctx, ast.Load):
                     # a class-level default (expanding: bool = True) is what an instance without its own value shows
@@ -689,6 +705,13 @@ class Interp:
             return UNKNOWN
         if isinstance(e, ast.UnaryOp) and isinstance(e.op, ast.Not):
             return not self.truthy(self.ev(e.operand, env, depth))
+        if isinstance(e, ast.UnaryOp) and isinstance(e.op, ast.Invert):
+            v = self.ev(e.operand, env, depth)
+            if isinstance(v, Arr) and all(isinstance(x, bool) for x in v):
+                return Arr([not x for x in v])        # ~mask
+            if isinstance(v, int) and not isinstance(v, bool):
+                return ~v
+            return UNKNOWN
         if isinstance(e, ast.UnaryOp) and isinstance(e.op, (ast.USub, ast.UAdd)):
             v = self.ev(e.operand, env, depth)
             if isinstance(v, SVal):
@@ -764,6 +787,20 @@ class Interp:
                     return UNKNOWN
                 same = (l is r) or (not isinstance(l, (list, dict, set, Obj)) and not isinstance(r, (list, dict, set, Obj)) and l == r)
                 return same if isinstance(op, ast.Is) else not same
+            if (isinstance(l, Arr) or isinstance(r, Arr)) and isinstance(op, (ast.Lt, ast.LtE, ast.Gt, ast.GtE, ast.Eq, ast.NotEq)):
+                # numpy: an array compared with a scalar / an array of the same length is the array of element-wise answers
+                import operator as _op
+                f_ = {ast.Lt: _op.lt, ast.LtE: _op.le, ast.Gt: _op.gt, ast.GtE: _op.ge, ast.Eq: _op.eq, ast.NotEq: _op.ne}[type(op)]
+                ls = list(l) if isinstance(l, Arr) else None
+                rs = list(r) if isinstance(r, Arr) else None
+                if ls is not None and rs is not None and len(ls) != len(rs):
+                    return UNKNOWN
+                k_ = len(ls if ls is not None else rs)
+                ls = ls if ls is not None else [l] * k_
+                rs = rs if rs is not None else [r] * k_
+                if all(_is_num(x) for x in ls + rs):
+                    return Arr([f_(a_, b_) for a_, b_ in zip(ls, rs)])
+                return UNKNOWN
             if isinstance(op, (ast.Eq, ast.NotEq)) and isinstance(l, TypeV) and isinstance(r, TypeV):
                 return (l == r) if isinstance(op, ast.Eq) else (l != r)
             if isinstance(op, (ast.Eq, ast.NotEq)) and not (l is UNKNOWN or r is UNKNOWN) and not isinstance(l, Sym) and not isinstance(r, Sym):
@@ -835,6 +872,12 @@ class Interp:
             st_ = self.ev(e.slice.step, env, depth) if e.slice.step is not None else None
             if isinstance(base, list) and all(x is None or (isinstance(x, int) and not isinstance(x, bool)) for x in (lo, hi, st_)):
                 return base[lo:hi:st_]
+            return UNKNOWN
+        if isinstance(e, ast.Subscript) and not isinstance(e.slice, ast.Slice) and isinstance(self.ev(e.value, env, depth), Arr) \
+                and isinstance(self.ev(e.slice, env, depth), Arr):
+            base_, mask_ = self.ev(e.value, env, depth), self.ev(e.slice, env, depth)
+            if len(base_) == len(mask_) and all(isinstance(x, bool) for x in mask_):
+                return Arr([x for x, k_ in zip(base_, mask_) if k_])       # boolean-mask indexing
             return UNKNOWN
         if isinstance(e, ast.Subscript):
             base = self.ev(e.value, env, depth)
